@@ -3,7 +3,7 @@ import re
 
 from .. import pp, report
 from ..facts import AnchorMissing
-from ..guards import analysis, truth_of
+from ..guards import analysis, truth_of, option_test
 from ..sym import Sym, atom_str
 from ..terms import strip, short, cname, unmut, walk
 
@@ -334,18 +334,17 @@ def slot_store_guarded(an, sy, bb, stmt):
     arr = stmt["p"]["l"]
     for (d, rel, vals) in an.atoms_at(bb):
         tr = truth_of(rel, vals)
-        if tr is None:
-            continue
         x = strip(d)
         inner = x
-        want_truth = None
-        if x[0] == "call" and short(x[1]) == "Option::<T>::is_some" and len(x[2]) == 1:
-            inner, want_truth = strip(x[2][0]), False
-        elif x[0] == "call" and short(x[1]) == "Option::<T>::is_none" and len(x[2]) == 1:
-            inner, want_truth = strip(x[2][0]), True
+        ot = option_test(d, rel, vals)
+        if ot is not None:
+            if ot[1] != "none":
+                continue
+            inner = ot[0]
         elif x[0] == "index":
-            inner, want_truth = x, False
-        if want_truth is None or tr != want_truth:
+            if tr is not False:
+                continue
+        else:
             continue
         # inner = index(index(var arr, i), j) ...
         got_idx = []
@@ -385,11 +384,9 @@ def check_test_and_set(prog, res, rule, body, an, sy, loop, head):
             for (bi, si, x) in defs_in:
                 ok = False
                 for (d, rel, vals) in an.atoms_at(bi):
-                    tr = truth_of(rel, vals)
-                    xx = strip(d)
-                    if xx[0] == "call" and len(xx[2]) == 1 and strip(xx[2][0]) in (("var", l), ("mut", l)):
-                        if (short(xx[1]) == "Option::<T>::is_some" and tr is False) or (short(xx[1]) == "Option::<T>::is_none" and tr is True):
-                            ok = True
+                    ot = option_test(d, rel, vals)
+                    if ot is not None and ot[1] == "none" and ot[0] in (("var", l), ("mut", l)):
+                        ok = True
                 res.oblige(ok, "test-and-set")
                 if ok:
                     res.hit(rule)
